@@ -371,6 +371,8 @@ func runC03(c *Ctx) {
 	checkAddrTypeCoverage(c)
 	// an issued address keeps its identity: the duplicate check that protects its row looks under the key its writer used
 	checkHashedBucketKeys(c, "C03-R5")
+	checkDerivationPathLiterals(c, "C03-R4")
+	checkCacheHitReturnsCopy(c, "C03-R2")
 	// ---------- R6 ----------
 	for _, spec := range [][2]string{{"managedAddress", "privKeyCT"}, {"baseScriptAddress", "scriptClearText"}} {
 		fn := p.Func("waddrmgr", spec[0], "lock")
